@@ -274,3 +274,16 @@ Theorem cut_savepoint_crc_refuted :
   wf_log refute_log = true /\ crc_ok refute_log = true /\ no_reset refute_log = true /\
   fst (replay_ops_with false true 1 0 (firstn 17 (encode refute_log))) = VCorrupt.
 Proof. vm_compute. repeat split; reflexivity. Qed.
+
+(* the one option of the recovering process that the recovery path reads - check_crc_on_checkpoint - makes no
+   difference on a log whose checksums are right (written with checksums on, off, or a mixture: crc_ok accepts a
+   stored 0), whatever the cut *)
+Theorem recover_crc_option_independent : forall spchk rs (n : nat) main,
+  wf_log rs = true -> no_reset rs = true -> crc_ok rs = true -> spchk = true -> (n <= length (encode rs))%nat ->
+  recover_with spchk true 1 0 (firstn n (encode rs)) main = recover_with spchk false 1 0 (firstn n (encode rs)) main.
+Proof.
+  intros spchk rs n main Hwf Hnr Hcrc Hsp Hn. unfold recover_with.
+  rewrite (replay_cut spchk true rs n Hwf Hnr (fun _ => Hcrc) (or_intror Hsp) Hn).
+  rewrite (replay_cut spchk false rs n Hwf Hnr (fun H => False_ind _ (Bool.diff_false_true H)) (or_introl eq_refl) Hn).
+  reflexivity.
+Qed.
